@@ -1,0 +1,20 @@
+//go:build verif
+
+package crypto
+
+// Verification hooks (add-only, compiled with -tags verif only): the order in which the envelope
+// detector behind OldContainerDetectorWrapper / of an EnvelopeDetector calls its callbacks.
+
+// VerifX11CallbackIDs returns the IDs of the detector's callbacks in call order.
+func (recognizer *EnvelopeDetector) VerifX11CallbackIDs() []string {
+	ids := make([]string, 0, len(recognizer.callbacks))
+	for _, c := range recognizer.callbacks {
+		ids = append(ids, c.ID())
+	}
+	return ids
+}
+
+// VerifX11CallbackIDs returns the IDs of the wrapped detector's callbacks in call order.
+func (wrapper *OldContainerDetectorWrapper) VerifX11CallbackIDs() []string {
+	return wrapper.detector.VerifX11CallbackIDs()
+}
